@@ -72,7 +72,7 @@ func buildV2Job(id string, b *model.Behaviour, pal *palette.Palette, ci int64, h
 		case "set":
 			job.Steps = append(job.Steps, v2Step{Op: "set", K: hex.EncodeToString(pal.Key(s.Args.K)), V: hex.EncodeToString(pal.Value(s.Args.V)), Upd: s.Ret.Upd, Work: v2pairs(s.Work, pal)})
 		case "rm":
-			job.Steps = append(job.Steps, v2Step{Op: "rm", K: hex.EncodeToString(pal.Key(s.Args.K)), Work: v2pairs(s.Work, pal)})
+			job.Steps = append(job.Steps, v2Step{Op: "rm", K: hex.EncodeToString(pal.Key(s.Args.K)), Upd: s.Ret.Rem, Work: v2pairs(s.Work, pal)})
 		case "save":
 			if s.Ret.Err || s.Ret.Noop {
 				continue
@@ -197,7 +197,7 @@ func RunV2(id, tier string, seed int64) int {
 	if err != nil {
 		return fail(2, "INCONCLUSIVE: "+err.Error())
 	}
-	classes := []string{"set", "set", "set", "set", "rm", "rm", "save", "save", "save"}
+	classes := []string{"set", "set", "set", "set", "rm", "rm", "rmabsent", "save", "save", "save"}
 	if persistence {
 		classes = append(classes, "reopen", "reopen", "delto")
 	}
@@ -216,7 +216,7 @@ func RunV2(id, tier string, seed int64) int {
 		// need five or more keys in a particular shape
 		big := sim
 		big.K, big.D, big.Num = 12, 48, tierNum(tier, 4, 20)
-		big.Classes = []string{"setnew", "setnew", "setnew", "setnew", "set", "rm", "rm", "rm", "rm", "save", "save"}
+		big.Classes = []string{"setnew", "setnew", "setnew", "setnew", "set", "rm", "rm", "rm", "rm", "rmabsent", "save", "save"}
 		bb, bg, err := GenerateBehaviours(big, seed+31)
 		if err != nil {
 			return fail(2, "INCONCLUSIVE: "+err.Error())
